@@ -76,10 +76,11 @@ class CascadeChecker:
         else:
             return False
 
-    def __init__(self, app: NDNApp, trust_anchor: BinaryStr, storage: PublicKeyStorage = MemoryKeyStorage()):
+    def __init__(self, app: NDNApp, trust_anchor: BinaryStr, storage: PublicKeyStorage | None = None):
         self.app = app
         self.next_level = self
-        self.storage = storage
+        # A default created in the signature would be one cache shared by every checker of the process
+        self.storage = storage if storage is not None else MemoryKeyStorage()
         cert_name, _, key_bits, sig_ptrs = parse_data(trust_anchor)
         self.anchor_name = [bytes(c) for c in cert_name]  # Copy the name in case
         self.anchor_key = bytes(key_bits)
